@@ -17,7 +17,7 @@ res() { echo "RESULT $1=$2"; }
 cp "$demo" "$wt/$pkg/zz_demo_test.go"
 (cd "$wt" && timeout 300 go test -count=1 $tagarg -run 'Demo|demo|Seed' ./$pkg/ >/tmp/evalseed.$$.log 2>&1) && res demo_without_change pass || { res demo_without_change FAIL; tail -5 /tmp/evalseed.$$.log; }
 rm -f "$wt/$pkg/zz_demo_test.go"
-git -C "$wt" apply "$seed/patch.diff" || { res apply FAIL; exit 2; }
+git -C "$wt" apply "$seed/patch.diff" 2>/dev/null || git -C "$wt" apply --3way "$seed/patch.diff" >/dev/null 2>&1 || { res apply FAIL; exit 2; }
 (cd "$wt" && go build ./... >/dev/null 2>&1) && res build pass || res build FAIL
 (cd "$wt" && timeout 900 go test -count=1 $tagarg ./$pkg/... >/tmp/evalseed.$$.log 2>&1) && res existing_tests_with_change pass || { res existing_tests_with_change FAIL; tail -5 /tmp/evalseed.$$.log; }
 cp "$demo" "$wt/$pkg/zz_demo_test.go"
